@@ -1217,6 +1217,8 @@ class TaskPool:
                     and itask.state(TASK_STATUS_WAITING)
                     and itask.state_reset(is_runahead=True)
                 ):
+                    # (a queued task would still be released to run)
+                    self.unqueue_task(itask)
                     self.data_store_mgr.delta_task_state(itask)
         return True
 
